@@ -714,3 +714,206 @@ func clDecodeItemDiscipline(c *Ctx) {
 		}
 	}
 }
+
+// ---------------------------------------------------------------------------
+// C11.b (second half): slices shared between LoadFromDisk and its loader
+// goroutines are indexed by an index of their own size class, and slots that
+// the verification dereferences are filled before the loaders start.
+// ---------------------------------------------------------------------------
+
+// sizeClassOfLen classifies a length expression: "len:<var>" or "param:<name>".
+func sizeClassOfLen(v ssa.Value) string {
+	v = strip(v)
+	if call, ok := v.(*ssa.Call); ok && isBuiltin(call, "len") {
+		if al := cellOf(call.Call.Args[0]); al != nil {
+			return "len:" + al.Comment
+		}
+		if u, ok := call.Call.Args[0].(*ssa.UnOp); ok {
+			if fv, ok := u.X.(*ssa.FreeVar); ok {
+				return "len:" + fv.Name()
+			}
+		}
+	}
+	if prm, ok := v.(*ssa.Parameter); ok {
+		return "param:" + prm.Name()
+	}
+	if u, ok := v.(*ssa.UnOp); ok && u.Op == token.MUL {
+		if al, ok := u.X.(*ssa.Alloc); ok {
+			return "param:" + al.Comment
+		}
+		if fv, ok := u.X.(*ssa.FreeVar); ok {
+			return "param:" + fv.Name()
+		}
+	}
+	return "?"
+}
+
+// loopBoundClass: v is a loop induction value; returns the class of its bound.
+func loopBoundClass(v ssa.Value) string {
+	v = strip(v)
+	cands := []ssa.Value{v}
+	if ph, ok := v.(*ssa.Phi); ok {
+		for _, r := range referrersOf(ph) {
+			if add, ok := r.(*ssa.BinOp); ok && add.Op == token.ADD {
+				cands = append(cands, add)
+			}
+		}
+	}
+	if b, ok := v.(*ssa.BinOp); ok && b.Op == token.ADD {
+		if ph, ok := b.X.(*ssa.Phi); ok {
+			cands = append(cands, ph)
+		}
+	}
+	for _, cv := range cands {
+		for _, r := range referrersOf(cv) {
+			if b, ok := r.(*ssa.BinOp); ok && b.Op == token.LSS && b.X == cv {
+				if cl := sizeClassOfLen(b.Y); cl != "?" {
+					return cl
+				}
+			}
+		}
+	}
+	return "?"
+}
+
+func clLoaderSliceDiscipline(c *Ctx) {
+	p := c.P
+	fn := p.Func("nitro", "Nitro", "LoadFromDisk")
+	fi := p.Info(fn)
+	cnt := counter{}
+	// size class of every local slice cell
+	sizeOf := map[*ssa.Alloc]string{}
+	for _, in := range fi.Instrs {
+		st, ok := in.(*ssa.Store)
+		if !ok {
+			continue
+		}
+		al, ok := st.Addr.(*ssa.Alloc)
+		if !ok {
+			continue
+		}
+		switch ms := strip(st.Val).(type) {
+		case *ssa.MakeSlice:
+			sizeOf[al] = sizeClassOfLen(ms.Len)
+		}
+	}
+	// class of what travels over each channel
+	chanClass := map[*ssa.MakeChan]string{}
+	for _, in := range fi.Instrs {
+		if s, ok := in.(*ssa.Send); ok {
+			if mc := chanOrigin(s.Chan); mc != nil {
+				chanClass[mc] = loopBoundClass(s.X)
+			}
+		}
+	}
+	n := 0
+	for cl, g := range goClosures(fn) {
+		cfi := p.Info(cl)
+		for _, in := range cfi.Instrs {
+			ia, ok := in.(*ssa.IndexAddr)
+			if !ok {
+				continue
+			}
+			u, ok := ia.X.(*ssa.UnOp)
+			if !ok {
+				continue
+			}
+			fv, ok := u.X.(*ssa.FreeVar)
+			if !ok {
+				continue
+			}
+			cell, ok := closureBinding(cl, fv).(*ssa.Alloc)
+			if !ok {
+				continue
+			}
+			sc, known := sizeOf[cell]
+			if !known || sc == "?" {
+				continue
+			}
+			// class of the index
+			idx := strip(ia.Index)
+			ic := "?"
+			if e, ok := idx.(*ssa.Extract); ok {
+				if rcv, ok := e.Tuple.(*ssa.UnOp); ok && rcv.Op == token.ARROW {
+					if mc := chanOrigin(rcv.X); mc != nil {
+						ic = chanClass[mc]
+					}
+				}
+			} else if rcv, ok := idx.(*ssa.UnOp); ok && rcv.Op == token.ARROW {
+				if mc := chanOrigin(rcv.X); mc != nil {
+					ic = chanClass[mc]
+				}
+			} else if prm, ok := idx.(*ssa.Parameter); ok {
+				for i, pp := range cl.Params {
+					if pp == prm && i < len(g.Call.Args) {
+						ic = loopBoundClass(g.Call.Args[i])
+					}
+				}
+			}
+			if ic == "?" || ic == "" {
+				continue
+			}
+			n++
+			c.Check(ic == sc, cl, in, cnt.in(cl, "shared slice "+cell.Comment+" is indexed by an index of its own size class"),
+				fmt.Sprintf("slice %s has %s elements but is indexed by a value ranging over %s: with more loaders than files (or vice versa) a damaged shard makes the goroutine panic with index out of range, or its error lands in another shard's slot", cell.Comment, strings.TrimPrefix(sc, "len:"), strings.TrimPrefix(ic, "len:")))
+		}
+	}
+	if n < 4 {
+		undecidedf("LoadFromDisk loaders: only %d indexed shared slices classified", n)
+	}
+	// reader slots that the main goroutine dereferences are filled by the main goroutine
+	for _, in := range fi.Instrs {
+		al, ok := in.(*ssa.Alloc)
+		if !ok {
+			continue
+		}
+		sl, ok := al.Type().Underlying().(*types.Pointer).Elem().Underlying().(*types.Slice)
+		if !ok {
+			continue
+		}
+		if nm, ok := sl.Elem().(*types.Named); !ok || nm.Obj().Name() != "FileReader" {
+			continue
+		}
+		filledByLoader := false
+		for cl := range goClosures(fn) {
+			for _, x := range p.Info(cl).Instrs {
+				st, ok := x.(*ssa.Store)
+				if !ok {
+					continue
+				}
+				if ia, ok := st.Addr.(*ssa.IndexAddr); ok {
+					if u, ok := ia.X.(*ssa.UnOp); ok {
+						if fv, ok := u.X.(*ssa.FreeVar); ok && closureBinding(cl, fv) == ssa.Value(al) {
+							filledByLoader = true
+						}
+					}
+				}
+			}
+		}
+		if !filledByLoader {
+			c.Check(true, fn, al, cnt.in(fn, "reader slots of "+al.Comment+" are filled before the loaders start"), "")
+			continue
+		}
+		// then every use in the main goroutine must be nil-guarded
+		okAll := true
+		for _, x := range fi.Instrs {
+			cc := callOf(x)
+			if cc == nil || !cc.IsInvoke() || x.Parent() != fn {
+				continue
+			}
+			ld, ok := cc.Value.(*ssa.UnOp)
+			if !ok {
+				continue
+			}
+			ia, ok := ld.X.(*ssa.IndexAddr)
+			if !ok || cellOf(ia.X) != al {
+				continue
+			}
+			if !fi.guardedByCmp(x, token.NEQ, isValue(cc.Value), isNilConst) {
+				okAll = false
+			}
+		}
+		c.Check(okAll, fn, al, cnt.in(fn, "reader slots of "+al.Comment+" are filled before the loaders start"),
+			"shard readers are opened by the loader goroutines and stay nil when the open fails, but the verification dereferences every slot: a missing shard file makes LoadFromDisk panic instead of returning an error")
+	}
+}
